@@ -457,6 +457,25 @@ class _PE:
                     return ast.copy_location(ast.Constant(value=not node.operand.value), node)
                 return node
 
+            def visit_Dict(self, node):
+                self.generic_visit(node)
+                # {**{'a': x, 'b': y}, 'c': z}: one display (later keys win, as in Python, when a key repeats)
+                if any(k is None and isinstance(v, ast.Dict) and None not in v.keys for k, v in zip(node.keys, node.values)):
+                    keys, vals = [], []
+                    for k, v in zip(node.keys, node.values):
+                        pairs = list(zip(v.keys, v.values)) if (k is None and isinstance(v, ast.Dict) and None not in v.keys) else [(k, v)]
+                        for k2, v2 in pairs:
+                            if k2 is not None and isinstance(k2, ast.Constant):
+                                for i_, k3 in enumerate(keys):
+                                    if isinstance(k3, ast.Constant) and k3.value == k2.value and type(k3.value) is type(k2.value):
+                                        del keys[i_], vals[i_]
+                                        break
+                            keys.append(k2)
+                            vals.append(v2)
+                    node.keys, node.values = keys, vals
+                    pe.changed += 1
+                return node
+
             def visit_BoolOp(self, node):
                 self.generic_visit(node)
                 # constant operands: `True or x` is True, `False or x` is x, `True and x` is x, `False and x` is False (left to right, so nothing is skipped
